@@ -130,6 +130,14 @@ void useDispatchers()
 		(void)d.removeFilter(fh);
 		d.dispatch(1, 1, Payload());
 	}
+	{
+		using D1 = eventpp::EventDispatcher<int, void (int, Payload), PoliciesGateFilter>;
+		D1 d1; auto f1 = d1.appendFilter([](int &, Payload &) { return true; }); (void)f1; d1.appendListener(1, [](int, Payload) {}); d1.dispatch(1, 1, Payload());
+		using D2 = eventpp::EventDispatcher<int, void (int, Payload), PoliciesFilterGate>;
+		D2 d2; auto f2 = d2.appendFilter([](int &, Payload &) { return true; }); (void)f2; d2.appendListener(1, [](int, Payload) {}); d2.dispatch(1, 1, Payload());
+		using D3 = eventpp::EventDispatcher<int, void (int, Payload), PoliciesFilterNoop>;
+		D3 d3; auto f3 = d3.appendFilter([](int &, Payload &) { return true; }); (void)f3; d3.appendListener(1, [](int, Payload) {}); d3.dispatch(1, 1, Payload());
+	}
 }
 
 } // namespace wit
